@@ -618,6 +618,16 @@ func (w *c13Worker) Run(idx int) runner.CaseResult {
 	if !isAccount {
 		r := w.call(env, p, build(control), control.headers)
 		env.WaitIdle()
+		if !r.accepted && svc == "AdminService" {
+			// project-scoped admin procedures (ListDocuments, GetDocument, ListChanges, ...)
+			// take their project from an API-Key credential, not from a user token
+			c2 := attempt{"API-Key scheme with B's secret key", map[string]string{"authorization": "API-Key " + f.B.proj.SecretKey}, f.ids(&f.B, &f.B)}
+			if r2 := w.call(env, p, build(c2), c2.headers); r2.accepted {
+				r, control = r2, c2
+				res.AddStat("controls_built_with_secret_key", 1)
+			}
+			env.WaitIdle()
+		}
 		if r.accepted {
 			res.AddStat("controls_accepted", 1)
 		} else {
